@@ -117,9 +117,13 @@ func BFS(sys *System) *BFSResult {
 		return p
 	}
 	identities := map[string]int{}
+	firstUnknownAt := -1 // number of states when the first violation outside Tolerated was found
 	addViol := func(f Finding, p []string, tr []string) {
 		res.NViolations++
 		identities[f.Identity]++
+		if firstUnknownAt < 0 && (Tolerated == nil || !Tolerated(f.Identity)) {
+			firstUnknownAt = len(nodes)
+		}
 		// details for the first occurrence of each identity (a known finding must not crowd out
 		// an unknown one)
 		if identities[f.Identity] == 1 && len(res.Violations) < 40 {
@@ -233,6 +237,12 @@ func BFS(sys *System) *BFSResult {
 		if len(identities) >= 40 && res.Capped == "" {
 			res.Capped = "stopped after violations of 40 different identities"
 		}
+		// a violation that is not a listed known finding has been found: the verdict is settled,
+		// what is left is to collect further identities - within a budget, because a broken tree
+		// may have an unbounded state space (controllers fighting, revisions created forever)
+		if firstUnknownAt >= 0 && len(nodes) > 2*firstUnknownAt+20000 && res.Capped == "" {
+			res.Capped = fmt.Sprintf("stopped %d states after the first violation (found at %d states)", len(nodes)-firstUnknownAt, firstUnknownAt)
+		}
 		if res.Capped != "" {
 			break
 		}
@@ -243,6 +253,11 @@ func BFS(sys *System) *BFSResult {
 }
 
 const defaultMaxDepth = 300
+
+// Tolerated, when set, tells which violation identities are listed known findings of the property
+// being checked: they do not count as "a violation was found" for the early stop of the search
+// (the unchanged tree is always explored to closure).
+var Tolerated func(identity string) bool
 
 func evClass(name string) string {
 	for i, c := range name {
